@@ -277,6 +277,12 @@ func (p *proxy) cut() int {
 	return n
 }
 
+func (p *proxy) getMode() string {
+	p.mu.Lock()
+	defer p.mu.Unlock()
+	return p.mode
+}
+
 func (p *proxy) attempts() int {
 	p.mu.Lock()
 	defer p.mu.Unlock()
@@ -637,6 +643,14 @@ func (s *scen) finish(watchdog time.Duration) (hung []int) {
 	}
 	sort.Strings(names)
 	deadline := time.Now().Add(watchdog)
+	// a proxy that still holds a connection attempt lets it go: Client.Close() waits for the
+	// connect goroutine, which sits in the handshake until the peer answers or PacketTimeout expires
+	for _, n := range names {
+		if p := s.proxies[n]; p != nil && p.getMode() == "hold" {
+			s.rec.logS(s, map[string]any{"ev": "proxy", "cl": n, "mode": "pass"}, nil)
+			p.setMode("pass")
+		}
+	}
 	// one side after the other: the order of the teardown is then visible in the trace
 	for _, n := range names {
 		if !waitCh(s.closeSide(n), time.Until(deadline)) {
@@ -993,8 +1007,8 @@ func opBurst(q request) map[string]any {
 				ev["mem"], ev["limit"] = cur, size
 				created, total := srvRef.WorkersPoolSize()
 				ev["workers"], ev["maxWorkers"] = created, total
+				cs.once[0].Do(func() { close(cs.entered) }) // under the recorder mutex: visible together with the event
 			})
-			cs.once[0].Do(func() { close(cs.entered) })
 			select {
 			case <-cs.gate:
 			case <-ctx.Done():
@@ -1006,8 +1020,8 @@ func opBurst(q request) map[string]any {
 				ev["running"] = s.running
 				cur, _ := srvRef.RequestsMemory()
 				ev["mem"] = cur
+				cs.once[1].Do(func() { close(cs.exited) })
 			})
-			cs.once[1].Do(func() { close(cs.exited) })
 			hctx.Response = append(hctx.Response, makeResp(uid)...)
 			return nil
 		}
@@ -1054,7 +1068,7 @@ func opBurst(q request) map[string]any {
 	// at their gates and the server has at least one more request waiting in a receive loop
 	expectCap := q.Burst.Cap
 	piled := false
-	deadline := time.Now().Add(10 * time.Second)
+	deadline := time.Now().Add(30 * time.Second)
 	for time.Now().Before(deadline) {
 		rec.mu.Lock()
 		run := s.running
